@@ -141,3 +141,17 @@ VERDICT_TEMPLATES['symvar_contexts'] = dict(ref=_ref_uses, tpl=_T('TYPE\n  st : 
 def _ref_alias_twice(t): return set()
 VERDICT_TEMPLATES['enum_alias_used_twice'] = dict(ref=_ref_alias_twice, tpl=_T('TYPE\n  e : (a, b) := a;\n  f : e;\n  g : f;\nEND_TYPE\nFUNCTION_BLOCK one\nVAR\n  v1 : ', ('alt', ['e', 'f', 'g']), ' := a;\n  v2 : ', ('alt', ['e', 'f', 'g']), ' := b;\nEND_VAR\nEND_FUNCTION_BLOCK\n',
     ('opt', 'FUNCTION_BLOCK two\nVAR\n  w : g := a;\nEND_VAR\nEND_FUNCTION_BLOCK\n')))
+
+# a function-block instance is in scope only in the POU that declares it: another POU (a function, a function block or a program, written before or after the caller)
+# that declares an instance of the same name does not make the name known in the caller
+_HELPERS = ['', 'FUNCTION helper : INT\nVAR_INPUT\n  inst : callee;\nEND_VAR\n  helper := 1;\nEND_FUNCTION\n', 'FUNCTION helper : INT\nVAR\n  inst : callee;\nEND_VAR\n  helper := 1;\nEND_FUNCTION\n',
+            'FUNCTION_BLOCK helper\nVAR\n  inst : callee;\nEND_VAR\nEND_FUNCTION_BLOCK\n', 'PROGRAM helper\nVAR\n  inst : callee;\nEND_VAR\nEND_PROGRAM\n']
+def _ref_scope_pous(t):
+    return set() if 'inst : callee' in t[1] else {'P0021'}
+VERDICT_TEMPLATES['fb_scope_across_pous'] = dict(ref=_ref_scope_pous, tpl=_T(_CALLEE, ('alt', _HELPERS), ('alt', ['FUNCTION_BLOCK caller\nVAR\n  inst : callee;\nEND_VAR\n', 'FUNCTION_BLOCK caller\nVAR\n  x : INT;\nEND_VAR\n', 'FUNCTION_BLOCK caller\nVAR\n  other : callee;\nEND_VAR\n']),
+    '  inst();\nEND_FUNCTION_BLOCK\n', ('alt', [h.replace('helper', 'helper2') for h in _HELPERS])))
+
+# variables with a location and global variables may be of a user-defined type, with or without an initial value, like any other variable
+def _ref_located(t): return set()
+VERDICT_TEMPLATES['located_and_global_types'] = dict(ref=_ref_located, tpl=_T('TYPE\n  mytype : INT;\n  lvl : (lo, hi) := lo;\nEND_TYPE\nCONFIGURATION c\nVAR_GLOBAL\n  g ', ('opt', 'AT %QW1 '), ': ', ('alt', ['INT', 'INT := 1', 'mytype', 'mytype := 1', 'lvl']), ';\nEND_VAR\n'
+    'RESOURCE r ON PLC\n  TASK t(INTERVAL := T#1s, PRIORITY := 1);\n  PROGRAM i WITH t : p;\nEND_RESOURCE\nEND_CONFIGURATION\nPROGRAM p\nVAR\n  x AT %IW1 : ', ('alt', ['INT', 'INT := 1', 'mytype', 'mytype := 1', 'lvl']), ';\nEND_VAR\nEND_PROGRAM\n'))
